@@ -111,129 +111,216 @@ SetIn(c, path, v) == IF Len(path) = 1 THEN [c EXCEPT !.f = Bind(c.f, path[1], v)
 InLoop == stack # <<>>
 MpNext == MpStep(mp, I, InLoop, FALSE)
 EnvS == Bind(env, "$std", NumI(nstd + 17 * supi))      \* stand-in results vary with statement and input
-Step ==
-  /\ err = "" /\ I.op # "done"
-  /\ CASE Unbound # {} -> Fail("unbound name " \o (CHOOSE x \in Unbound : TRUE))
-       [] I.op = "assign" /\ IsCallTo(I.e, "Tensor") ->
-            /\ NewTensor(I.dst, StrSeq(Kw(I.e, "rank_ids")), <<>>) /\ Adv /\ UNCHANGED <<stack, err, upd>>
-       [] I.op = "assign" /\ IsCallTo(I.e, "createCanvas") ->
-            /\ env' = Bind(env, I.dst, [k |-> "canvas", ar |-> [i \in 1..Len(I.e.args) |-> Len(Obj(I.e.args[i]).ids)]])
-            /\ stamps' = {} /\ UNCHANGED <<acts, dup>>          \* a new canvas: stamps are unique per canvas (one per Einsum)
-            /\ Adv /\ UNCHANGED <<objs, store, stack, err, upd>>
-       [] I.op = "assign" /\ IsMeth(I.e, "fromFiber") ->
-            LET f == Eval(Kw(I.e, "fiber"), env, store)  ids == StrSeq(Kw(I.e, "rank_ids")) IN
-            IF f.k # "view" \/ Len(ids) # f.d - Len(f.pre) THEN Fail("fromFiber: rank ids do not match fiber depth")
-            ELSE /\ objs' = Append(objs, [ids |-> ids, sid |-> f.sid, pre |-> f.pre])
-                 /\ env' = Bind(env, I.dst, [k |-> "ten", o |-> Len(objs) + 1])
-                 /\ Adv /\ UNCHANGED <<store, stack, err, upd>>
-       [] I.op = "assign" /\ IsMeth(I.e, "getRoot") ->
-            LET o == Obj(I.e.fn.obj) IN
-            /\ env' = Bind(env, I.dst, IF Len(o.ids) = 0 THEN Ref(o.sid, o.pre) ELSE View(o.sid, o.pre, Len(o.pre) + Len(o.ids)))
-            /\ Adv /\ UNCHANGED <<objs, store, stack, err, upd>>
-       [] I.op = "assign" /\ IsMeth(I.e, "swizzleRanks") ->
-            LET o == Obj(I.e.fn.obj)  new == StrSeq(Kw(I.e, "rank_ids")) IN
-            IF SeqSet(new) # SeqSet(o.ids) \/ Len(new) # Len(o.ids) THEN Fail("swizzleRanks: not a permutation of the rank ids")
-            ELSE /\ NewTensor(I.dst, new, Swizzle(Rel(store, o), [i \in 1..Len(new) |-> CHOOSE j \in 1..Len(o.ids) : o.ids[j] = new[i]]))
-                 /\ Adv /\ UNCHANGED <<stack, err, upd>>
-       [] I.op = "assign" /\ IsMeth(I.e, "splitUniform") ->
-            LET o == Obj(I.e.fn.obj)  d == KwInt(I.e, "depth", 0)  stepv == Eval(I.e.args[1], env, store) IN
-            IF ~(stepv.d = 1 /\ stepv.n > 0) THEN Fail("splitUniform: step is not a positive integer")
-            ELSE IF d >= Len(o.ids) THEN Fail("splitUniform: depth out of range")
-            ELSE /\ NewTensor(I.dst, SplitIds(o.ids, d), SplitUniform(Rel(store, o), d, stepv.n * SCALE, KwScaled(I.e, "pre_halo"), KwScaled(I.e, "post_halo"), variant.haloOnly))
-                 /\ Adv /\ UNCHANGED <<stack, err, upd>>
-       [] I.op = "assign" /\ IsMeth(I.e, "splitEqual") ->
-            LET o == Obj(I.e.fn.obj)  n == Eval(I.e.args[1], env, store) IN
-            IF ~(n.d = 1 /\ n.n > 0) THEN Fail("splitEqual: size is not a positive integer")
-            ELSE /\ NewTensor(I.dst, SplitIds(o.ids, 0), SplitEqual(Rel(store, o), 0, n.n)) /\ Adv /\ UNCHANGED <<stack, err, upd>>
-       [] I.op = "assign" /\ IsMeth(I.e, "splitNonUniform") ->
-            LET o == Obj(I.e.fn.obj)  f == Eval(I.e.args[1], env, store) IN
-            IF f.k # "view" THEN Fail("splitNonUniform: boundaries are not a fiber")
-            ELSE /\ NewTensor(I.dst, SplitIds(o.ids, 0), SplitNonUniform(Rel(store, o), 0, CoordsAt(store[f.sid].m, f.pre), variant.dropBelow))
-                 /\ Adv /\ UNCHANGED <<stack, err, upd>>
-       [] I.op = "assign" /\ IsMeth(I.e, "mergeRanks") ->
-            LET o == Obj(I.e.fn.obj)  d == KwInt(I.e, "depth", 0)  l == KwInt(I.e, "levels", 1) IN
-            IF d + l >= Len(o.ids) THEN Fail("mergeRanks: depth/levels out of range")
-            ELSE /\ NewTensor(I.dst, Drop(o.ids, d, l), MergeAbs(Rel(store, o), d, l)) /\ Adv /\ UNCHANGED <<stack, err, upd>>
-       [] I.op = "assign" /\ IsMeth(I.e, "flattenRanks") ->
-            LET o == Obj(I.e.fn.obj)  d == KwInt(I.e, "depth", 0)  l == KwInt(I.e, "levels", 1) IN
-            IF d + l >= Len(o.ids) THEN Fail("flattenRanks: depth/levels out of range")
-            ELSE /\ NewTensor(I.dst, SubSeq(o.ids, 1, d) \o <<"flat">> \o SubSeq(o.ids, d + l + 2, Len(o.ids)), Flatten(Rel(store, o), d, l))
-                 /\ Adv /\ UNCHANGED <<stack, err, upd>>
-       [] I.op = "assign" /\ IsMeth(I.e, "unflattenRanks") ->
-            LET o == Obj(I.e.fn.obj)  d == KwInt(I.e, "depth", 0)  l == KwInt(I.e, "levels", 1)  m == Rel(store, o) IN
-            IF \E p \in DOMAIN m : Len(p[d + 1]) # l + 1 THEN Fail("unflattenRanks: coordinate arity")
-            ELSE /\ NewTensor(I.dst, SubSeq(o.ids, 1, d) \o [i \in 1..(l + 1) |-> "unflat"] \o SubSeq(o.ids, d + 2, Len(o.ids)), Unflatten(m, d, l))
-                 /\ Adv /\ UNCHANGED <<stack, err, upd>>
-       [] I.op = "assign" /\ ~IsTensorOp(I.e) ->
-            LET v == Eval(I.e, EnvS, store) IN
-            /\ env' = Bind(env, I.dst, v) /\ store' = Touch(store, RefsIn(v))
-            /\ Adv /\ UNCHANGED <<objs, stack, err, upd>>
-       [] I.op = "expr" /\ IsMeth(I.e, "setRankIds") ->
-            LET oid == env[I.e.fn.obj.id].o  ids == StrSeq(Kw(I.e, "rank_ids")) IN
-            IF Len(ids) # Len(objs[oid].ids) THEN Fail("setRankIds: wrong number of rank ids")
-            ELSE objs' = [objs EXCEPT ![oid].ids = ids] /\ Adv /\ UNCHANGED <<env, store, stack, err, upd>>
-       [] I.op = "expr" /\ IsMeth(I.e, "addActivity") ->
-            LET cv == Eval(I.e.fn.obj, env, store)
-                pts == [i \in 1..Len(I.e.args) |-> Eval(I.e.args[i], env, store)]
-                stamp == Eval(Kw(I.e, "spacetime"), env, store) IN
-            IF Len(pts) # Len(cv.ar) \/ \E i \in 1..Len(pts) : Len(pts[i].v) # cv.ar[i]
-            THEN err' = "activity point arity differs from displayed tensor" /\ UNCHANGED <<pc, env, objs, store, stack, upd, obsv>>
-            ELSE /\ acts' = acts + 1 /\ stamps' = stamps \cup {stamp} /\ dup' = (dup \/ stamp \in stamps)
-                 /\ Adv /\ UNCHANGED <<env, objs, store, stack, err, upd>>
-       [] I.op = "expr" /\ IsMeth(I.e, "add") /\ I.e.fn.obj.e = "name" ->
-            LET st0 == env[I.e.fn.obj.id] IN
-            /\ env' = Bind(env, I.e.fn.obj.id, [st0 EXCEPT !.s = @ \cup {Eval(I.e.args[1], env, store)}])
-            /\ Adv /\ UNCHANGED <<objs, store, stack, err, upd>>
-       [] I.op = "expr" /\ ~IsMeth(I.e, "setRankIds") /\ ~IsMeth(I.e, "addActivity") /\ ~(IsMeth(I.e, "add") /\ I.e.fn.obj.e = "name") ->
-            Adv /\ UNCHANGED <<env, objs, store, stack, err, upd>>
-       [] I.op = "setitem" /\ I.obj.e = "name" ->
-            LET dct == env[I.obj.id] IN
-            /\ env' = Bind(env, I.obj.id, [dct EXCEPT !.f = Bind(dct.f, Eval(I.key, env, store), Eval(I.e, env, store))])
-            /\ Adv /\ UNCHANGED <<objs, store, stack, err, upd>>
-       [] I.op = "setitem" /\ I.obj.e # "name" ->
-            LET root == RootName(I.obj) IN
-            /\ env' = Bind(env, root, SetIn(env[root], KeyPath(I.obj, EnvS, store) \o <<Eval(I.key, EnvS, store)>>, Eval(I.e, EnvS, store)))
-            /\ Adv /\ UNCHANGED <<objs, store, stack, err, upd>>
-       [] I.op = "aug" /\ I.dst.e = "index" /\ I.dst.obj.e # "name" ->
-            LET root == RootName(I.dst)  path == KeyPath(I.dst, EnvS, store) IN
-            /\ env' = Bind(env, root, SetIn(env[root], path, NAdd(Deref(store, Eval(I.dst, EnvS, store)), Deref(store, Eval(I.e, EnvS, store)))))
-            /\ Adv /\ UNCHANGED <<objs, store, stack, err, upd>>
-       [] I.op = "aug" /\ I.dst.e = "index" /\ I.dst.obj.e = "name" /\ env[I.dst.obj.id].k = "dict" ->
-            LET dct == env[I.dst.obj.id]  key == Eval(I.dst.key, env, store) IN
-            /\ env' = Bind(env, I.dst.obj.id, [dct EXCEPT !.f = Bind(dct.f, key, NAdd(dct.f[key], Eval(I.e, env, store)))])
-            /\ Adv /\ UNCHANGED <<objs, store, stack, err, upd>>
-       [] I.op = "for" /\ NotFibers(I.it) # {} -> Fail("iterating over a non-fiber " \o (CHOOSE x \in NotFibers(I.it) : TRUE))
-       [] I.op = "for" /\ NotFibers(I.it) = {} ->
-            LET its == Items(I.it, env, store) IN
-            IF Len(its) = 0 THEN pc' = I.end + 1 /\ UNCHANGED <<env, objs, store, stack, err, upd>>
-            ELSE IF ~DestrOK(I.tgt, its[1]) THEN Fail("cannot unpack loop item into the loop target")
-            ELSE /\ env' = Destr(I.tgt, its[1], env) /\ store' = Touch(store, RefsIn(its[1]))
-                 /\ stack' = <<Tail(its)>> \o stack /\ Adv /\ UNCHANGED <<objs, err, upd>>
-       [] I.op = "endfor" ->
-            LET its == Head(stack)  hdr == Code[I.start - 1] IN
-            IF Len(its) = 0 THEN Adv /\ stack' = Tail(stack) /\ UNCHANGED <<env, objs, store, err, upd>>
-            ELSE IF ~DestrOK(hdr.tgt, its[1]) THEN Fail("cannot unpack loop item into the loop target")
-            ELSE /\ env' = Destr(hdr.tgt, its[1], env) /\ store' = Touch(store, RefsIn(its[1]))
-                 /\ stack' = <<Tail(its)>> \o Tail(stack) /\ pc' = I.start /\ UNCHANGED <<objs, err, upd>>
-       [] I.op = "if" -> /\ pc' = IF Eval(I.c, env, store).b THEN pc + 1 ELSE I.else
-                         /\ UNCHANGED <<env, objs, store, stack, err, upd>>
-       [] I.op = "jump" -> pc' = I.to /\ UNCHANGED <<env, objs, store, stack, err, upd>>
-       [] I.op = "aug" /\ I.dst.e # "index" ->
-            LET r == Eval(I.dst, env, store) IN
-            IF r.k # "ref" THEN
-               (IF r.k = "num" THEN Adv /\ UNCHANGED <<env, objs, store, stack, err, upd>>   \* e.g. timestamps[...] += 1 (observer)
-                ELSE Fail("update target is not a payload reference"))
-            ELSE IF r.sid <= Len(Prog.inputs) THEN Fail("update writes into an input tensor")
-            ELSE LET v == Deref(store, Eval(I.e, env, store))
-                     m == store[r.sid].m
-                     old == IF r.path \in DOMAIN m THEN m[r.path] ELSE 0 IN
-                 IF v.d # 1 THEN Fail("non-integral value")
-                 ELSE /\ store' = [store EXCEPT ![r.sid].m = Bind(m, r.path, IF I.bop = "+" THEN old + v.n ELSE v.n)]
-                      /\ upd' = upd + 1 /\ Adv /\ UNCHANGED <<env, objs, stack, err>>
-  /\ UNCHANGED <<pid, cfg, supi, sup, variant>>
-  /\ (IsActivity \/ IsCanvas \/ UNCHANGED obsv)
-  /\ mp' = IF Unbound = {} THEN MpNext ELSE mp
-  /\ nstd' = IF err' = "" /\ I.op \in {"assign", "aug", "setitem"} THEN nstd + 1 ELSE nstd
+(* ---------------------------------------------------------------------------------------- *)
+(* One named action per kind of emitted statement (so that TLC's coverage shows which HiFiber    *)
+(* operations a run exercised).  G_x is the enabling condition of action x on the statement at   *)
+(* pc; the guards are mutually exclusive; a statement no action accepts makes the machine Stuck, *)
+(* which is an error (the program is not executable on the reference model), never a silent end.  *)
+Ready == err = "" /\ I.op # "done"
+OK == Ready /\ Unbound = {}
+Rest(vs) == UNCHANGED vs
+AsgCall(name) == OK /\ I.op = "assign" /\ IsMeth(I.e, name)
+G_TensorCtor == OK /\ I.op = "assign" /\ IsCallTo(I.e, "Tensor")
+G_CreateCanvas == OK /\ I.op = "assign" /\ IsCallTo(I.e, "createCanvas")
+G_AssignValue == OK /\ I.op = "assign" /\ ~IsTensorOp(I.e)
+G_SetRankIds == OK /\ I.op = "expr" /\ IsMeth(I.e, "setRankIds")
+G_AddActivity == OK /\ I.op = "expr" /\ IsMeth(I.e, "addActivity")
+G_SetAdd == OK /\ I.op = "expr" /\ IsMeth(I.e, "add") /\ I.e.fn.obj.e = "name"
+G_OtherCall == OK /\ I.op = "expr" /\ ~IsMeth(I.e, "setRankIds") /\ ~IsMeth(I.e, "addActivity") /\ ~(IsMeth(I.e, "add") /\ I.e.fn.obj.e = "name")
+G_SetItem == OK /\ I.op = "setitem" /\ I.obj.e = "name"
+G_SetItemNested == OK /\ I.op = "setitem" /\ I.obj.e # "name"
+G_AugNested == OK /\ I.op = "aug" /\ I.dst.e = "index" /\ I.dst.obj.e # "name"
+G_AugDict == OK /\ I.op = "aug" /\ I.dst.e = "index" /\ I.dst.obj.e = "name" /\ env[I.dst.obj.id].k = "dict"
+G_Update == OK /\ I.op = "aug" /\ I.dst.e # "index"
+G_ForNonFiber == OK /\ I.op = "for" /\ NotFibers(I.it) # {}
+G_For == OK /\ I.op = "for" /\ NotFibers(I.it) = {}
+G_EndFor == OK /\ I.op = "endfor"
+G_If == OK /\ I.op = "if"
+G_Jump == OK /\ I.op = "jump"
+TensorMeths == {"fromFiber", "getRoot", "swizzleRanks", "splitUniform", "splitEqual", "splitNonUniform", "mergeRanks", "flattenRanks", "unflattenRanks"}
+G_TensorMeth == OK /\ I.op = "assign" /\ I.e.e = "call" /\ I.e.fn.e = "attr" /\ I.e.fn.name \in TensorMeths
+
+UnboundName_ == Ready /\ Unbound # {} /\ Fail("unbound name " \o (CHOOSE x \in Unbound : TRUE))
+TensorCtor_ == G_TensorCtor /\ NewTensor(I.dst, StrSeq(Kw(I.e, "rank_ids")), <<>>) /\ Adv /\ Rest(<<stack, err, upd>>)
+CreateCanvas_ == /\ G_CreateCanvas
+                /\ env' = Bind(env, I.dst, [k |-> "canvas", ar |-> [i \in 1..Len(I.e.args) |-> Len(Obj(I.e.args[i]).ids)]])
+                /\ stamps' = {} /\ UNCHANGED <<acts, dup>>          \* a new canvas: stamps are unique per canvas (one per Einsum)
+                /\ Adv /\ Rest(<<objs, store, stack, err, upd>>)
+FromFiber_ == /\ AsgCall("fromFiber")
+             /\ LET f == Eval(Kw(I.e, "fiber"), env, store)  ids == StrSeq(Kw(I.e, "rank_ids")) IN
+                IF f.k # "view" \/ Len(ids) # f.d - Len(f.pre) THEN Fail("fromFiber: rank ids do not match fiber depth")
+                ELSE /\ objs' = Append(objs, [ids |-> ids, sid |-> f.sid, pre |-> f.pre])          \* shares the storage (A8)
+                     /\ env' = Bind(env, I.dst, [k |-> "ten", o |-> Len(objs) + 1])
+                     /\ Adv /\ Rest(<<store, stack, err, upd>>)
+GetRoot_ == /\ AsgCall("getRoot")
+           /\ LET o == Obj(I.e.fn.obj) IN
+              /\ env' = Bind(env, I.dst, IF Len(o.ids) = 0 THEN Ref(o.sid, o.pre) ELSE View(o.sid, o.pre, Len(o.pre) + Len(o.ids)))
+              /\ Adv /\ Rest(<<objs, store, stack, err, upd>>)
+SwizzleRanks_ == /\ AsgCall("swizzleRanks")
+                /\ LET o == Obj(I.e.fn.obj)  new == StrSeq(Kw(I.e, "rank_ids")) IN
+                   IF SeqSet(new) # SeqSet(o.ids) \/ Len(new) # Len(o.ids) THEN Fail("swizzleRanks: not a permutation of the rank ids")
+                   ELSE /\ NewTensor(I.dst, new, Swizzle(Rel(store, o), [i \in 1..Len(new) |-> CHOOSE j \in 1..Len(o.ids) : o.ids[j] = new[i]]))
+                        /\ Adv /\ Rest(<<stack, err, upd>>)
+SplitUniformA_ == /\ AsgCall("splitUniform")
+                 /\ LET o == Obj(I.e.fn.obj)  d == KwInt(I.e, "depth", 0)  stepv == Eval(I.e.args[1], env, store) IN
+                    IF ~(stepv.d = 1 /\ stepv.n > 0) THEN Fail("splitUniform: step is not a positive integer")
+                    ELSE IF d >= Len(o.ids) THEN Fail("splitUniform: depth out of range")
+                    ELSE /\ NewTensor(I.dst, SplitIds(o.ids, d), SplitUniform(Rel(store, o), d, stepv.n * SCALE, KwScaled(I.e, "pre_halo"), KwScaled(I.e, "post_halo"), variant.haloOnly))
+                         /\ Adv /\ Rest(<<stack, err, upd>>)
+SplitEqualA_ == /\ AsgCall("splitEqual")
+               /\ LET o == Obj(I.e.fn.obj)  n == Eval(I.e.args[1], env, store) IN
+                  IF ~(n.d = 1 /\ n.n > 0) THEN Fail("splitEqual: size is not a positive integer")
+                  ELSE /\ NewTensor(I.dst, SplitIds(o.ids, 0), SplitEqual(Rel(store, o), 0, n.n)) /\ Adv /\ Rest(<<stack, err, upd>>)
+SplitNonUniformA_ == /\ AsgCall("splitNonUniform")
+                    /\ LET o == Obj(I.e.fn.obj)  f == Eval(I.e.args[1], env, store) IN
+                       IF f.k # "view" THEN Fail("splitNonUniform: boundaries are not a fiber")
+                       ELSE /\ NewTensor(I.dst, SplitIds(o.ids, 0), SplitNonUniform(Rel(store, o), 0, CoordsAt(store[f.sid].m, f.pre), variant.dropBelow))
+                            /\ Adv /\ Rest(<<stack, err, upd>>)
+MergeRanks_ == /\ AsgCall("mergeRanks")
+              /\ LET o == Obj(I.e.fn.obj)  d == KwInt(I.e, "depth", 0)  l == KwInt(I.e, "levels", 1) IN
+                 IF d + l >= Len(o.ids) THEN Fail("mergeRanks: depth/levels out of range")
+                 ELSE /\ NewTensor(I.dst, Drop(o.ids, d, l), MergeAbs(Rel(store, o), d, l)) /\ Adv /\ Rest(<<stack, err, upd>>)
+FlattenRanks_ == /\ AsgCall("flattenRanks")
+                /\ LET o == Obj(I.e.fn.obj)  d == KwInt(I.e, "depth", 0)  l == KwInt(I.e, "levels", 1) IN
+                   IF d + l >= Len(o.ids) THEN Fail("flattenRanks: depth/levels out of range")
+                   ELSE /\ NewTensor(I.dst, SubSeq(o.ids, 1, d) \o <<"flat">> \o SubSeq(o.ids, d + l + 2, Len(o.ids)), Flatten(Rel(store, o), d, l))
+                        /\ Adv /\ Rest(<<stack, err, upd>>)
+UnflattenRanks_ == /\ AsgCall("unflattenRanks")
+                  /\ LET o == Obj(I.e.fn.obj)  d == KwInt(I.e, "depth", 0)  l == KwInt(I.e, "levels", 1)  m == Rel(store, o) IN
+                     IF \E p \in DOMAIN m : Len(p[d + 1]) # l + 1 THEN Fail("unflattenRanks: coordinate arity")
+                     ELSE /\ NewTensor(I.dst, SubSeq(o.ids, 1, d) \o [i \in 1..(l + 1) |-> "unflat"] \o SubSeq(o.ids, d + 2, Len(o.ids)), Unflatten(m, d, l))
+                          /\ Adv /\ Rest(<<stack, err, upd>>)
+AssignValue_ == /\ G_AssignValue
+               /\ LET v == Eval(I.e, EnvS, store) IN
+                  /\ env' = Bind(env, I.dst, v) /\ store' = Touch(store, RefsIn(v))
+                  /\ Adv /\ Rest(<<objs, stack, err, upd>>)
+SetRankIds_ == /\ G_SetRankIds
+              /\ LET oid == env[I.e.fn.obj.id].o  ids == StrSeq(Kw(I.e, "rank_ids")) IN
+                 IF Len(ids) # Len(objs[oid].ids) THEN Fail("setRankIds: wrong number of rank ids")
+                 ELSE objs' = [objs EXCEPT ![oid].ids = ids] /\ Adv /\ Rest(<<env, store, stack, err, upd>>)      \* in place: every alias sees it
+AddActivity_ == /\ G_AddActivity
+               /\ LET cv == Eval(I.e.fn.obj, env, store)
+                      pts == [i \in 1..Len(I.e.args) |-> Eval(I.e.args[i], env, store)]
+                      stamp == Eval(Kw(I.e, "spacetime"), env, store) IN
+                  IF Len(pts) # Len(cv.ar) \/ \E i \in 1..Len(pts) : Len(pts[i].v) # cv.ar[i]
+                  THEN err' = "activity point arity differs from displayed tensor" /\ UNCHANGED <<pc, env, objs, store, stack, upd, obsv>>
+                  ELSE /\ acts' = acts + 1 /\ stamps' = stamps \cup {stamp} /\ dup' = (dup \/ stamp \in stamps)
+                       /\ Adv /\ Rest(<<env, objs, store, stack, err, upd>>)
+SetAdd_ == /\ G_SetAdd
+          /\ LET st0 == env[I.e.fn.obj.id] IN
+             /\ env' = Bind(env, I.e.fn.obj.id, [st0 EXCEPT !.s = @ \cup {Eval(I.e.args[1], env, store)}])
+             /\ Adv /\ Rest(<<objs, store, stack, err, upd>>)
+OtherCall_ == G_OtherCall /\ Adv /\ Rest(<<env, objs, store, stack, err, upd>>)          \* inert observer / model call
+SetItem_ == /\ G_SetItem
+           /\ LET dct == env[I.obj.id] IN
+              /\ env' = Bind(env, I.obj.id, [dct EXCEPT !.f = Bind(dct.f, Eval(I.key, env, store), Eval(I.e, env, store))])
+              /\ Adv /\ Rest(<<objs, store, stack, err, upd>>)
+SetItemNested_ == /\ G_SetItemNested
+                 /\ LET root == RootName(I.obj) IN
+                    /\ env' = Bind(env, root, SetIn(env[root], KeyPath(I.obj, EnvS, store) \o <<Eval(I.key, EnvS, store)>>, Eval(I.e, EnvS, store)))
+                    /\ Adv /\ Rest(<<objs, store, stack, err, upd>>)
+AugNested_ == /\ G_AugNested
+             /\ LET root == RootName(I.dst)  path == KeyPath(I.dst, EnvS, store) IN
+                /\ env' = Bind(env, root, SetIn(env[root], path, NAdd(Deref(store, Eval(I.dst, EnvS, store)), Deref(store, Eval(I.e, EnvS, store)))))
+                /\ Adv /\ Rest(<<objs, store, stack, err, upd>>)
+AugDict_ == /\ G_AugDict
+           /\ LET dct == env[I.dst.obj.id]  key == Eval(I.dst.key, env, store) IN
+              /\ env' = Bind(env, I.dst.obj.id, [dct EXCEPT !.f = Bind(dct.f, key, NAdd(dct.f[key], Eval(I.e, env, store)))])
+              /\ Adv /\ Rest(<<objs, store, stack, err, upd>>)
+ForNonFiber_ == G_ForNonFiber /\ Fail("iterating over a non-fiber " \o (CHOOSE x \in NotFibers(I.it) : TRUE))
+\* loop entry: the iterable is materialised (no emitted program mutates a fiber it iterates); empty => skip the body
+ForEnter_ == /\ G_For
+            /\ LET its == Items(I.it, env, store) IN
+               IF Len(its) = 0 THEN pc' = I.end + 1 /\ Rest(<<env, objs, store, stack, err, upd>>)
+               ELSE IF ~DestrOK(I.tgt, its[1]) THEN Fail("cannot unpack loop item into the loop target")
+               ELSE /\ env' = Destr(I.tgt, its[1], env) /\ store' = Touch(store, RefsIn(its[1]))
+                    /\ stack' = <<Tail(its)>> \o stack /\ Adv /\ Rest(<<objs, err, upd>>)
+ForNext_ == /\ G_EndFor
+           /\ LET its == Head(stack)  hdr == Code[I.start - 1] IN
+              IF Len(its) = 0 THEN Adv /\ stack' = Tail(stack) /\ Rest(<<env, objs, store, err, upd>>)
+              ELSE IF ~DestrOK(hdr.tgt, its[1]) THEN Fail("cannot unpack loop item into the loop target")
+              ELSE /\ env' = Destr(hdr.tgt, its[1], env) /\ store' = Touch(store, RefsIn(its[1]))
+                   /\ stack' = <<Tail(its)>> \o Tail(stack) /\ pc' = I.start /\ Rest(<<objs, err, upd>>)
+IfStmt_ == G_If /\ pc' = (IF Eval(I.c, env, store).b THEN pc + 1 ELSE I.else) /\ Rest(<<env, objs, store, stack, err, upd>>)
+Jump_ == G_Jump /\ pc' = I.to /\ Rest(<<env, objs, store, stack, err, upd>>)
+\* z_ref += e  /  z_ref <<= e : the only statements that write tensor data
+Update_ == /\ G_Update
+          /\ LET r == Eval(I.dst, env, store) IN
+             IF r.k # "ref" THEN
+                (IF r.k = "num" THEN Adv /\ Rest(<<env, objs, store, stack, err, upd>>)   \* e.g. timestamps[...] += 1 (observer)
+                 ELSE Fail("update target is not a payload reference"))
+             ELSE IF r.sid <= Len(Prog.inputs) THEN Fail("update writes into an input tensor")
+             ELSE LET v == Deref(store, Eval(I.e, env, store))
+                      m == store[r.sid].m
+                      old == IF r.path \in DOMAIN m THEN m[r.path] ELSE 0 IN
+                  IF v.d # 1 THEN Fail("non-integral value")
+                  ELSE /\ store' = [store EXCEPT ![r.sid].m = Bind(m, r.path, IF I.bop = "+" THEN old + v.n ELSE v.n)]
+                       /\ upd' = upd + 1 /\ Adv /\ Rest(<<env, objs, stack, err>>)
+Stuck_ == /\ OK
+         /\ ~(G_TensorCtor \/ G_CreateCanvas \/ G_TensorMeth \/ G_AssignValue \/ G_SetRankIds \/ G_AddActivity \/ G_SetAdd \/ G_OtherCall \/ G_SetItem
+              \/ G_SetItemNested \/ G_AugNested \/ G_AugDict \/ G_Update \/ G_ForNonFiber \/ G_For \/ G_EndFor \/ G_If \/ G_Jump)
+         /\ Fail("statement is not executable on the reference model")
+Common == /\ UNCHANGED <<pid, cfg, supi, sup, variant>>
+          /\ (IsActivity \/ IsCanvas \/ UNCHANGED obsv)
+          /\ mp' = IF Unbound = {} THEN MpNext ELSE mp
+          /\ nstd' = IF err' = "" /\ I.op \in {"assign", "aug", "setitem"} THEN nstd + 1 ELSE nstd
+\* every action = its statement-specific part (X_) + the part common to all steps (constants, observers, protocol monitor)
+UnboundName == UnboundName_ /\ Common
+TensorCtor == TensorCtor_ /\ Common
+CreateCanvas == CreateCanvas_ /\ Common
+FromFiber == FromFiber_ /\ Common
+GetRoot == GetRoot_ /\ Common
+SwizzleRanks == SwizzleRanks_ /\ Common
+SplitUniformA == SplitUniformA_ /\ Common
+SplitEqualA == SplitEqualA_ /\ Common
+SplitNonUniformA == SplitNonUniformA_ /\ Common
+MergeRanks == MergeRanks_ /\ Common
+FlattenRanks == FlattenRanks_ /\ Common
+UnflattenRanks == UnflattenRanks_ /\ Common
+AssignValue == AssignValue_ /\ Common
+SetRankIds == SetRankIds_ /\ Common
+AddActivity == AddActivity_ /\ Common
+SetAdd == SetAdd_ /\ Common
+OtherCall == OtherCall_ /\ Common
+SetItem == SetItem_ /\ Common
+SetItemNested == SetItemNested_ /\ Common
+AugNested == AugNested_ /\ Common
+AugDict == AugDict_ /\ Common
+ForNonFiber == ForNonFiber_ /\ Common
+ForEnter == ForEnter_ /\ Common
+ForNext == ForNext_ /\ Common
+IfStmt == IfStmt_ /\ Common
+Jump == Jump_ /\ Common
+Update == Update_ /\ Common
+Stuck == Stuck_ /\ Common
+Step == \/ UnboundName
+        \/ TensorCtor
+        \/ CreateCanvas
+        \/ FromFiber
+        \/ GetRoot
+        \/ SwizzleRanks
+        \/ SplitUniformA
+        \/ SplitEqualA
+        \/ SplitNonUniformA
+        \/ MergeRanks
+        \/ FlattenRanks
+        \/ UnflattenRanks
+        \/ AssignValue
+        \/ SetRankIds
+        \/ AddActivity
+        \/ SetAdd
+        \/ OtherCall
+        \/ SetItem
+        \/ SetItemNested
+        \/ AugNested
+        \/ AugDict
+        \/ ForNonFiber
+        \/ ForEnter
+        \/ ForNext
+        \/ IfStmt
+        \/ Jump
+        \/ Update
+        \/ Stuck
 Spec == Init /\ [][Step]_vars
 -----------------------------------------------------------------------------
 (* Einsum oracle (EinsumSem) instantiated on the chosen input *)
